@@ -2,9 +2,9 @@
    Only statements closed by `exact <lemma>` and their Print Assumptions.
    Every statement is quantified over the regex engine: valid p = "re.compile(p) succeeds",
    matches p s = "re.compile(p, IGNORECASE).search(s) finds a match". *)
-From Coq Require Import ZArith.
+From Coq Require Import ZArith Permutation.
 From TL Require Import Lib.Base Lib.GenTypes Model.PlacementTypes Gen.PlacementGen Model.Placement Model.PlacementSource
-     Model.PlacementRun Proofs.PlacementStrings Proofs.PlacementMain Proofs.PlacementSource.
+     Model.PlacementRun Proofs.PlacementStrings Proofs.PlacementMain Proofs.PlacementSource Proofs.PlacementOrder.
 
 (* 1. With the three remaining quirks off (the prefix test, the handling of dict allow items and the resolution of
       relative paths are the forms found in the source, for any value of their flags), for every regex engine, every configuration with non-empty directory keys
@@ -47,6 +47,28 @@ Theorem C18_uncovered_iff_no_containing_rule : forall p dirs,
   spec_rule p dirs = None <-> forall d r, In (d, r) dirs -> contains d p = false.
 Proof. exact spec_rule_none. Qed.
 Print Assumptions C18_uncovered_iff_no_containing_rule.
+
+(* 2'. The choice does not depend on the order in which the directory rules are listed, as long as no directory is
+       listed twice (keys compared without trailing slashes), nor on rules for directories that do not contain the
+       file; with the remaining quirk flags off the same holds for the reported list of the checker model. *)
+Theorem C18_most_specific_rule_order_independent : forall p dirs dirs',
+  distinct_dirs dirs -> Permutation dirs dirs' -> spec_rule p dirs' = spec_rule p dirs.
+Proof. exact spec_rule_order_independent. Qed.
+Print Assumptions C18_most_specific_rule_order_independent.
+
+Theorem C18_report_order_independent : forall matches q c dirs' p,
+  q_global_on_covered q = false -> q_trailing_slash_depth q = false ->
+  cfg_ok c = true -> distinct_dirs (dirs_of c) -> Permutation (dirs_of c) dirs' ->
+  check_all matches q p (with_dirs c dirs') = check_all matches q p c.
+Proof. exact report_order_independent. Qed.
+Print Assumptions C18_report_order_independent.
+
+Theorem C18_other_directories_irrelevant : forall matches q c p,
+  q_global_on_covered q = false -> q_trailing_slash_depth q = false ->
+  cfg_ok c = true ->
+  check_all matches q p (with_dirs c (containing p (dirs_of c))) = check_all matches q p c.
+Proof. exact report_other_directories_irrelevant. Qed.
+Print Assumptions C18_other_directories_irrelevant.
 
 (* 3. Reported iff: covered -> its most specific rule has a matching deny pattern or an allow list none of
       whose patterns match; not covered -> the same judgement by global_deny and by global_patterns. *)
